@@ -301,12 +301,117 @@ type Case struct {
 	Order   int       `json:"order"`
 	X       []float64 `json:"x"`
 	XS      []string  `json:"x_special,omitempty"` // non-finite coordinates
-	Pollute int       `json:"pollute"`             // 0 fresh registers; 1/2: registers and scratch reused from an earlier order-1/2 computation
+	Pollute int       `json:"pollute"`             // 0 fresh objects; 1/2: registers, scratch and constant-valued magic scalars reused from an earlier order-1/2 computation; >= 3: reused objects with a longer history (index into polHists)
 	// Stale 1/2: the variable objects themselves served as result registers of an earlier order-1/2
 	// computation over the same number of variables (they still carry its gradient / Hessian) and are
 	// activated AGAIN; Act: through which route ("" = Variables on fresh objects)
 	Stale int    `json:"stale_variables,omitempty"`
 	Act   string `json:"activate,omitempty"`
+	// Hist: the variable objects are re-activated after an earlier differentiation round in which
+	// each of them was updated in place by an operation reading the variable itself (see VarHist);
+	// X is then the point they hold after that update
+	Hist *VarHist `json:"variable_history,omitempty"`
+	// RegHist: for Pollute >= 3, the orders of the contents the reused objects held (informational)
+	RegHist string `json:"register_history,omitempty"`
+}
+
+// VarHist: an earlier differentiation round on the variable objects. The objects were created
+// at X0, activated with Variables(Order, ...), and then each variable i (in index order) was
+// overwritten in place by one depth-1 program of the alphabet that reads the variable itself:
+//
+//	Form "a":  Vi := Op(Vi)  or  Vi := Op(Vi, O)
+//	Form "b":  Vi := Op(O, Vi)
+//	Form "ab": Vi := Op(Vi, Vi)
+//
+// with the other operand O = the next variable V(i+1 mod n) ("V"), the ConstFloat64 literal
+// ("K"), the plain Float64 ("P"), or a register T = Vj*Vj computed beforehand from the next
+// variable ("T": a term that depends on other variables with a non-zero Hessian, as in the
+// coordinate-wise update x := x + g(y)).
+type VarHist struct {
+	Order int       `json:"earlier_order"`
+	X0    []float64 `json:"earlier_point"`
+	Op    string    `json:"update_op"`
+	Par   float64   `json:"update_par,omitempty"`
+	Form  string    `json:"update_form"`
+	Other string    `json:"update_other,omitempty"`
+}
+
+func (h *VarHist) String() string {
+	o := ops[findOp(h.Op, h.Par)]
+	oth := map[string]string{"V": "Vnext", "K": fmt.Sprintf("K(%g)", constK), "P": fmt.Sprintf("P(%g)", constP), "T": "T=Vnext*Vnext"}[h.Other]
+	switch {
+	case o.Kind == Unary:
+		return fmt.Sprintf("Vi:=%v(Vi)", o)
+	case h.Form == "ab":
+		return fmt.Sprintf("Vi:=%v(Vi,Vi)", o)
+	case h.Form == "b":
+		return fmt.Sprintf("Vi:=%v(%s,Vi)", o, oth)
+	}
+	return fmt.Sprintf("Vi:=%v(Vi,%s)", o, oth)
+}
+
+// objHist: the contents a reused object (destination register, scratch temporary,
+// constant-valued magic scalar) held before the program runs: results of earlier computations
+// of the given derivative orders over the same number of variables, oldest first, each
+// assigned over the previous one by Set; the last one by Route ("Set", or "Add0": as the
+// result of the operation r.Add(src, 0)).
+type objHist struct {
+	Orders []int
+	Route  string
+}
+
+func (h objHist) orderString() string { return objHist{Orders: h.Orders}.String() }
+
+func (h objHist) String() string {
+	s := ""
+	for i, o := range h.Orders {
+		if i > 0 {
+			s += ">"
+		}
+		s += fmt.Sprintf("o%d", o)
+	}
+	if h.Route != "" {
+		s += ":" + h.Route
+	}
+	return s
+}
+
+// polHists: Case.Pollute indexes this table. 0: fresh objects; 1, 2: one earlier content of
+// order 1 / 2; 3..: every sequence of two, then three contents with different adjacent orders
+// (2>1, 2>0, 1>2, ..., 2>0>1, 1>2>1, ...) x last-assignment route.
+var polHists = []objHist{{}, {Orders: []int{1}}, {Orders: []int{2}}}
+
+// polHistQuick: the modes [3, polHistQuick) are the two-content histories.
+var polHistQuick int
+
+func init() {
+	var seqs func(length int, f func([]int))
+	seqs = func(length int, f func([]int)) {
+		var rec func(seq []int)
+		rec = func(seq []int) {
+			if len(seq) == length {
+				f(append([]int(nil), seq...))
+				return
+			}
+			for _, o := range []int{2, 1, 0} {
+				if len(seq) > 0 && seq[len(seq)-1] == o {
+					continue
+				}
+				rec(append(seq, o))
+			}
+		}
+		rec(nil)
+	}
+	for _, l := range []int{2, 3} {
+		seqs(l, func(q []int) {
+			for _, r := range []string{"Set", "Add0"} {
+				polHists = append(polHists, objHist{Orders: q, Route: r})
+			}
+		})
+		if l == 2 {
+			polHistQuick = len(polHists)
+		}
+	}
 }
 
 // the routes by which scalars become variables
